@@ -46,6 +46,22 @@ pub fn open_key_header(t: &Templates, r_priv: &[u8], r_pub: &[u8], header: &[u8]
     Some(Opened { sender_pub: sp, payload, file_key, hh })
 }
 
+/// Open a 132-byte key-mode header addressed to a key that forces all-zero shared secrets, with no private key at all
+/// (NoiseX!ReadScheduleNull).  Succeeds only on files that should never have been written.
+pub fn open_key_header_null(t: &Templates, r_pub: &[u8], header: &[u8]) -> Option<(Opened, Vec<u8>, Vec<u8>)> {
+    if header.len() != 132 {
+        return None;
+    }
+    let mut env = Env::new().b("r_pub", r_pub).b("e_pub", &header[4..36]).b("enc_s", &header[36..84]).b("enc_p", &header[84..132]);
+    let k1 = t.eval("null_k1", &env).ok()?;
+    let sp = kestrel_crypto::chapoly_decrypt_ietf(&k1, &t.eval("null_n1", &env).ok()?, &header[36..84], &t.eval("null_ad1", &env).ok()?).ok()?;
+    let k2 = t.eval("null_k2", &env).ok()?;
+    let payload = kestrel_crypto::chapoly_decrypt_ietf(&k2, &t.eval("null_n2", &env).ok()?, &header[84..132], &t.eval("null_ad2", &env).ok()?).ok()?;
+    env.set_b("payload", &payload);
+    let file_key = t.eval("null_file_key", &env).ok()?;
+    Some((Opened { sender_pub: sp, payload, file_key, hh: Vec::new() }, k1, k2))
+}
+
 /// Unlock a locked private key string as the specification prescribes its layout:
 /// the layout is checked by re-building the LockedKey term from the recovered key.
 pub fn unlock_by_spec(t: &Templates, locked: &str, password: &[u8]) -> Option<Vec<u8>> {
